@@ -102,6 +102,10 @@ impl Partial {
         }
         false
     }
+    /// x, x.x, x.x.x (any wildcard characters) without qualifier
+    pub fn all_wild_plain(&self) -> bool {
+        self.comps.iter().all(|c| c.is_wild()) && !self.has_qualifier()
+    }
     pub fn has_wild(&self) -> bool {
         self.comps.iter().any(|c| c.is_wild())
     }
@@ -143,6 +147,14 @@ impl Op {
     pub fn all() -> Vec<Op> {
         vec![Op::Bare, Op::Eq, Op::Lt, Op::Le, Op::Gt, Op::Ge, Op::Tilde, Op::TildeGt, Op::Caret]
     }
+}
+
+/// is the comparator `op partial` in the D8 class?
+pub fn op_wildcard_misplaced(op: Op, p: &Partial) -> bool {
+    if op == Op::Bare || !p.wildcard_misplaced() {
+        return false;
+    }
+    !((op == Op::Ge || op == Op::Lt) && p.all_wild_plain())
 }
 
 #[derive(Clone, Debug, PartialEq, Eq, Hash, Serialize, Deserialize)]
@@ -263,9 +275,20 @@ impl RangeAst {
     }
 
     // ---- construct classes that belong to listed findings (DESIGN 5.2) ----
-    /// D8: wildcard misplaced under an operator / tilde / caret / hyphen operand
+    /// D8: wildcard misplaced under an operator / tilde / caret / hyphen operand.  The class is kept as
+    /// tight as the defects: `>=x`, `<x` (any number of wildcard components, no qualifier) and an
+    /// all-wildcard *lower* operand of a hyphen range (`x - 2`) are handled correctly and stay outside.
     pub fn has_wildcard_misplaced(&self) -> bool {
-        self.alts.iter().any(|a| a.partials().iter().any(|(p, op)| *op != Some(Op::Bare) && p.wildcard_misplaced()))
+        self.alts.iter().any(|a| match a {
+            Alt::Hyphen { lo, hi, .. } => {
+                let lo_bad = lo.as_ref().map(|p| p.wildcard_misplaced() && !p.all_wild_plain()).unwrap_or(false);
+                lo_bad || hi.wildcard_misplaced()
+            }
+            Alt::Simples { toks, .. } => toks.iter().any(|t| match t {
+                Tok::Cmp { op, p, .. } => op_wildcard_misplaced(*op, p),
+                _ => false,
+            }),
+        })
     }
     /// D9: lower-less hyphen
     pub fn has_lowerless_hyphen(&self) -> bool {
@@ -274,6 +297,26 @@ impl RangeAst {
     /// D10: an empty alternative next to others (the whole-text '' is allowed to fail)
     pub fn has_empty_alternative(&self) -> bool {
         self.alts.len() > 1 && self.alts.iter().any(|a| matches!(a, Alt::Simples { toks, .. } if toks.is_empty()))
+    }
+    /// structural validity of the AST itself (a minimised or hand-written case may violate it):
+    /// every partial has 1..=3 components, identifiers are non-empty and over [0-9A-Za-z-]
+    pub fn well_formed(&self) -> bool {
+        let id_ok = |t: &String| !t.is_empty() && t.bytes().all(|b| b.is_ascii_alphanumeric() || b == b'-');
+        !self.alts.is_empty()
+            && self.all_partials().iter().all(|(p, _)| (1..=3).contains(&p.comps.len()) && p.pre.iter().all(id_ok) && p.build.iter().all(id_ok))
+            && self.lead.chars().all(|c| c == ' ' || c == '\t')
+            && self.trail.chars().all(|c| c == ' ' || c == '\t')
+            && self.alts.iter().all(|a| match a {
+                Alt::Simples { toks, seps } => {
+                    seps.iter().all(|s| !s.is_empty() && s.chars().all(|c| c == ' ' || c == '\t'))
+                        && seps.len() + 1 >= toks.len()
+                        && toks.iter().all(|t| match t {
+                            Tok::Garbage(g) => GARBAGE.contains(&g.as_str()),
+                            _ => true,
+                        })
+                }
+                _ => true,
+            })
     }
     pub fn all_partials(&self) -> Vec<(&Partial, Option<Op>)> {
         self.alts.iter().flat_map(|a| a.partials()).collect()
@@ -487,10 +530,16 @@ pub fn tok(cfg: &GenCfg) -> BoxedStrategy<Tok> {
     let cmp = op().prop_flat_map(move |o| {
         (Just(o), prop_oneof![6 => Just(0u8), 2 => Just(1u8), 2 => Just(2u8), 1 => Just(3u8)], partial(&c1, o != Op::Bare)).prop_map(|(op, blanks, p)| Tok::Cmp { op, blanks, p })
     });
+    // wildcard-major shapes that are outside the finding class: `>=x`, `<x.x` ...
+    let wild_ok = (select(vec![Op::Ge, Op::Lt]), 1usize..=3, select(vec!['x', 'X', '*']), 0u8..3).prop_map(|(op, k, ch, blanks)| Tok::Cmp {
+        op,
+        blanks,
+        p: Partial { v: false, comps: vec![Comp::Wild(ch); k], pre: vec![], build: vec![], hyphenless: false },
+    });
     if cfg.allow_garbage {
-        prop_oneof![12 => cmp, 1 => select(GARBAGE.to_vec()).prop_map(|g| Tok::Garbage(g.to_string()))].boxed()
+        prop_oneof![24 => cmp, 1 => wild_ok, 2 => select(GARBAGE.to_vec()).prop_map(|g| Tok::Garbage(g.to_string()))].boxed()
     } else {
-        cmp.boxed()
+        prop_oneof![24 => cmp, 1 => wild_ok].boxed()
     }
 }
 
@@ -524,7 +573,17 @@ pub fn simples(cfg: &GenCfg) -> BoxedStrategy<Alt> {
 pub fn hyphen(cfg: &GenCfg) -> BoxedStrategy<Alt> {
     let lowerless = cfg.allow_lowerless_hyphen;
     (partial(cfg, true), partial(cfg, true), 0u8..10, prop_oneof![4 => Just((0u8, 0u8)), 1 => (0u8..3, 0u8..3)])
-        .prop_map(move |(lo, hi, k, pad)| Alt::Hyphen { lo: if lowerless && k == 0 { None } else { Some(lo) }, hi, pad })
+        .prop_map(move |(lo, hi, k, pad)| {
+            let lo = if lowerless && k == 0 {
+                None
+            } else if k == 1 {
+                // all-wildcard lower operand (`x - 2`): outside the finding class
+                Some(Partial { v: false, comps: vec![Comp::Wild('x'); 1 + (pad.0 as usize % 3)], pre: vec![], build: vec![], hyphenless: false })
+            } else {
+                Some(lo)
+            };
+            Alt::Hyphen { lo, hi, pad }
+        })
         .boxed()
 }
 
